@@ -63,6 +63,12 @@ func (w *fwalk) ty(t reflect.Type, seen map[reflect.Type]bool) {
 			if !kt.Implements(TTextM) {
 				w.f["floatkey"] = true
 			}
+		case reflect.String, reflect.Int, reflect.Int8, reflect.Int16, reflect.Int32, reflect.Int64,
+			reflect.Uint, reflect.Uint8, reflect.Uint16, reflect.Uint32, reflect.Uint64, reflect.Uintptr:
+		default:
+			if !kt.Implements(TTextM) {
+				w.f["badkey"] = true // a key kind the compiler rejects when it compiles the type
+			}
 		}
 		w.ty(kt, seen)
 		w.ty(t.Elem(), seen)
@@ -85,6 +91,10 @@ func (w *fwalk) ty(t reflect.Type, seen map[reflect.Type]bool) {
 			}
 			if strings.Contains(tag, ",omitempty") {
 				w.f["tag-omitempty"] = true
+				switch f.Type.Kind() {
+				case reflect.Chan, reflect.Func, reflect.Complex64, reflect.Complex128, reflect.UnsafePointer:
+					w.f["badomit"] = true // omitempty on a kind the compiler rejects when it compiles the type
+				}
 			}
 			w.ty(f.Type, seen)
 		}
@@ -150,7 +160,7 @@ func (w *fwalk) val(v reflect.Value, addr bool, depth int, omitempty bool) {
 		if !utf8.ValidString(v.String()) {
 			w.f["invalid-utf8"] = true
 		}
-		if quotedStr && (!utf8.ValidString(v.String()) || strings.ContainsAny(v.String(), "<>&\u2028\u2029")) {
+		if quotedStr && (!utf8.ValidString(v.String()) || strings.ContainsAny(v.String(), "<>&\u2028\u2029\b\f")) {
 			w.f["quoted-string-special"] = true
 		}
 	case reflect.Array:
